@@ -1,6 +1,8 @@
 """C10 / C07 at the level of the cache store objects: Lru.tla / Adapter.tla model checking (+ negative configs), TLC-generated
 behaviours replayed through the real lru / SimpleCache adapter (harness/cmd/storedrv), random histories of the real lru
-validated by LruTrace.tla, CacheTtl.tla accessor cases, and the end-to-end expiry observations checked by CacheTtlObs.tla."""
+validated by LruTrace.tla, CacheTtl.tla accessor cases, the end-to-end expiry observations checked by CacheTtlObs.tla, and
+(round 2) CacheFill.tla: the wire between store and server (which key the PTTL probe names, how the answer - 0, 1, small,
+exactly the client ttl, -1, -2 - is applied) generated as cases for `storedrv -mode fill`."""
 import hashlib, json, os, pickle, re, shutil, tempfile, time
 from concurrent.futures import ThreadPoolExecutor
 from lib import vlib
@@ -83,9 +85,14 @@ def model_lru(ctx, which, thorough):
                  dict(module='Adapter', cfg='MCA_quick.cfg'),
                  dict(module='Adapter', cfg='MCA_neg_later.cfg', expect='ExpiryIsMin'),
                  dict(module='Adapter', cfg='MCA_neg_hitexp.cfg', expect='NoHitAtOrAfterExpiry'),
-                 dict(module='Adapter', cfg='MCA_neg_delpending.cfg', expect='PendingNeverEvicted')]
+                 dict(module='Adapter', cfg='MCA_neg_delpending.cfg', expect='PendingNeverEvicted'),
+                 # CacheFill.tla (wire between store and server): the positive run is the generation config of fill_cases
+                 dict(module='CacheFill', cfg='MCF_neg_zero.cfg', expect='EarlierOfBoth'),
+                 dict(module='CacheFill', cfg='MCF_neg_probe.cfg', expect='ProbesNameKeys'),
+                 dict(module='CacheFill', cfg='MCF_neg_mget.cfg', expect='ProbeShape')]
         if thorough:
-            jobs += [dict(module='Lru', cfg='MC_expiry_thorough.cfg', timeout=3000), dict(module='Adapter', cfg='MCA_thorough.cfg', timeout=3000)]
+            jobs += [dict(module='Lru', cfg='MC_expiry_thorough.cfg', timeout=3000), dict(module='Adapter', cfg='MCA_thorough.cfg', timeout=3000),
+                     dict(module='CacheFill', cfg='MCF_thorough.cfg', timeout=3000)]
     tlc_many(ctx, jobs)
 
 
@@ -185,15 +192,52 @@ def ttl_cases(ctx, binp, scratch):
     ctx.run_driver(binp, ['-mode', 'ttl', '-cases', path], timeout=300)
 
 
+def fill_generate(ctx, scratch, thorough):
+    """All complete behaviours of CacheFill.tla as cases (the same run checks the invariants of the module)."""
+    return generate(ctx, 'CacheFill', 'GenF_thorough.cfg' if thorough else 'GenF_quick.cfg', scratch, workers=1, timeout=900)[0]
+
+
+def fill_cases(ctx, binp, scratch, thorough, path=None):
+    """C07 between store and server (spec -> code): every complete behaviour of CacheFill.tla (command shape x call path x
+    store x static tags x cached items x server key state, PTTL answers scripted) is one call of the real client; the
+    driver compares the wire token by token and logs the expiries for CacheTtlObs.tla.  Returns the observation file."""
+    if path is None:
+        path = fill_generate(ctx, scratch, thorough)
+    elif hasattr(path, 'result'):
+        path = path.result()
+    if path is None:
+        return None
+    tdir = tempfile.mkdtemp(prefix='fill-', dir=scratch)
+    rep = ctx.run_driver(binp, ['-mode', 'fill', '-cases', path, '-tracedir', tdir], timeout=900)
+    f = os.path.join(tdir, 'fill-obs.ndjson')
+    if rep is None or not os.path.exists(f) or os.path.getsize(f) == 0:
+        if rep is not None:
+            ctx.inconclusive.append('fill produced no observations')
+        return None
+    return f
+
+
 def e2e(ctx, binp, scratch, rounds):
-    """C07 end to end: observations of the real client over fakeredis, judged by CacheTtlObs.tla."""
+    """C07 end to end: observations of the real client over fakeredis (real server expiry).  Returns the observation file."""
     tdir = tempfile.mkdtemp(prefix='e2e-', dir=scratch)
     rep = ctx.run_driver(binp, ['-mode', 'e2e', '-runs', str(rounds), '-tracedir', tdir], timeout=900)
     f = os.path.join(tdir, 'e2e-obs.ndjson')
     if rep is None or not os.path.exists(f) or os.path.getsize(f) == 0:
         if rep is not None:
             ctx.inconclusive.append('e2e produced no observations')
+        return None
+    return f
+
+
+def judge_obs(ctx, scratch, files):
+    """The observation records of the modes e2e and fill, judged by CacheTtlObs.tla in one run."""
+    files = [f for f in files if f]
+    if not files:
         return
+    f = os.path.join(scratch, 'obs-all.ndjson')
+    with open(f, 'w') as out:
+        for g in files:
+            out.write(open(g).read())
     r = vlib.tlc(FAMILY, 'CacheTtlObs', 'CacheTtlObs.cfg', workers=1, timeout=900, env={'VERIF_TRACE': f})
     ctx.tlc_runs.append(dict(r.summary(), observations=sum(1 for _ in open(f))))
     if '"CHECKED"' not in r.output:
@@ -202,8 +246,10 @@ def e2e(ctx, binp, scratch, rounds):
     for m in re.finditer(r'<<"BAD", (\d+), "([^"]+)", "(.*)">>', r.output):
         rec = json.loads(vlib._unescape_tla(m.group(3)))
         srv = 'none' if rec['srvP'] < 0 and rec['exists'] else ('missing-key' if not rec['exists'] else 'px')
-        sig = 'e2e %s store=%s static=%s call=%s server-expiry=%s' % (m.group(2), rec['store'], str(rec['static']).lower(),
-                                                                     rec['multi'], srv)
+        sig = 'e2e %s store=%s static=%s call=%s server-expiry=%s shape=%s' % (m.group(2), rec['store'], str(rec['static']).lower(),
+                                                                              rec['multi'], srv, rec['shape'])
+        if rec['mode'] == 'scripted':   # the PTTL answer was scripted: name the class of the answer (p0, p1, small, eq, large)
+            sig += ' pttl-answer=' + rec['srv']
         ctx.violation(sig, 'observation #%s of the real client contradicts CacheTtlObs.tla (%s): %s' % (m.group(1), m.group(2), json.dumps(rec)),
                       dict(observation=rec))
 
@@ -224,11 +270,14 @@ def replay_recorded(ctx, binp, scratch, path):
 def run(ctx, which):
     th = ctx.tier == 'thorough'
     scratch = tempfile.mkdtemp(prefix='verif-store-', dir=vlib.SCRATCH_ROOT)
+    bg = None
     try:
         binp = vlib.build('storedrv')
         if getattr(ctx, 'replay', None):
             replay_recorded(ctx, binp, scratch, ctx.replay)
             return
+        bg = ThreadPoolExecutor(max_workers=1)
+        fillgen = bg.submit(fill_generate, ctx, scratch, th) if which == 'expiry' else None   # runs beside the model checking
         model_lru(ctx, which, th)
         if which == 'size':
             specs = [('LruGen', 'Gen_size_thorough.cfg' if th else 'Gen_size.cfg', 'lru', {}),
@@ -245,12 +294,16 @@ def run(ctx, which):
             ctx.run_driver(binp, ['-mode', 'scenario'], timeout=300)
         else:
             ttl_cases(ctx, binp, scratch)
-            e2e(ctx, binp, scratch, 96 if th else 30)
+            judge_obs(ctx, scratch, [e2e(ctx, binp, scratch, 96 if th else 30), fill_cases(ctx, binp, scratch, th, fillgen)])
         trace_validate(ctx, binp, scratch, *((600, 60) if th else (120, 40)))
     finally:
+        if bg is not None:
+            bg.shutdown(wait=True)
         shutil.rmtree(scratch, ignore_errors=True)
     ctx.assumptions += ['TLC and the CommunityModules Json/IOUtils operators are trusted',
                         'the export wrappers of verif_export_store.go read the stores under their own locks',
                         'exhaustive = every transition of the bounded generation configs was replayed through the real store; '
-                        'random walks and random histories are samples']
+                        'random walks and random histories are samples',
+                        'fill: the PTTL answers of fakeredis are scripted per key name (harness/fakeredis/ext_store2.go); one '
+                        'connection (PipelineMultiplex -1), so the split of a batch over connections is not part of the cases']
 
